@@ -66,6 +66,9 @@ ASSUMPTIONS = [
     "not compared with the model (counted as corr_skipped): DeduplicateHashedInitializers with string initializers "
     "(digest taken over object addresses), "
     "RemoveUnusedNodes after an earlier pass of the same sequence left uses registered by detached subgraph nodes",
+    "the second input set of every model also supplies a value (different from the default) for every graph input "
+    "that is backed by an initializer; it is dropped for models in which that input no longer exists "
+    "(RemoveInitializersFromInputsPass)",
     "names are not part of the property (number and order are): a main-graph input/output renamed by OutputFixPass "
     "(which has to separate two values that shared one name) is exempt, by any other pass it is a failure",
     "DeduplicateHashedInitializersPass = DeduplicateInitializersPass assuming no SHA-512 collision",
@@ -2000,14 +2003,18 @@ def _evaluate(proto: onnx.ModelProto, inputs: list[dict]) -> list:
             if not k.startswith(OVERRIDE):
                 continue
             n = k[len(OVERRIDE):]
-            if n not in all_inputs and n not in init_names and n + "_orig" in all_inputs | init_names:
+            if n not in all_inputs and n + "_orig" in all_inputs:
                 n = n + "_orig"  # OutputFixPass renamed the input (see RENAME_EXEMPT)
-            if n in all_inputs or n in init_names:
-                free[n] = v  # (an initializer that is no longer listed as input keeps the caller's value here)
+            if n not in all_inputs:
+                # the initializer is no longer a graph input (RemoveInitializersFromInputsPass): a caller cannot
+                # supply it any more, this input set does not apply to the model
+                return None
+            free[n] = v
         return free
 
     # feeds are copied: some reference operators (BatchNormalization in training mode) write into their inputs
-    return [[_canon_out(a) for a in sess.run(None, {k: np.array(v, copy=True) for k, v in feed(feeds).items()})]
+    return [None if feed(feeds) is None else
+            [_canon_out(a) for a in sess.run(None, {k: np.array(v, copy=True) for k, v in feed(feeds).items()})]
             for feeds in inputs]
 
 
@@ -2062,6 +2069,8 @@ def _compare(base: dict, st: dict) -> tuple[str, str] | None:
     if st["eval_error"] is not None:
         return "eval-raise", st["eval_error"]
     for k, (ob, oa) in enumerate(zip(base["outs"], st["outs"])):
+        if ob is None or oa is None:
+            continue  # input set with a value for an initializer-backed input that is no longer an input
         if len(ob) != len(oa):
             return "eval-diff", f"input set {k}: {len(ob)} outputs -> {len(oa)}"
         for pos, (x, y) in enumerate(zip(ob, oa)):
